@@ -14,6 +14,6 @@ assert old in s, "pattern not found"
 open(p, "w").write(s.replace(old, new, 1))
 PY
 for id in ${ids//,/ }; do
-  VERIF_REPO=$wt VERIF_SCRATCH=/tmp/vfscratch-$$ ./check $id --tier ${TIER:-quick} | grep -E "VIOLATION|HELD|INCONCLUSIVE|VIOLATED" | cut -c1-260 || true
+  VERIF_EVIDENCE_DIR=/tmp/vfscratch-$$/evidence VERIF_REPLAY_DIR=/tmp/vfscratch-$$/replay VERIF_REPO=$wt VERIF_SCRATCH=/tmp/vfscratch-$$ ./check $id --tier ${TIER:-quick} | grep -E "VIOLATION|HELD|INCONCLUSIVE|VIOLATED" | cut -c1-260 || true
 done
 rm -rf /tmp/vfscratch-$$
